@@ -119,6 +119,29 @@ def drive_b(rec, part, count):
         rec.case(("B", op, mk, min(rs, 4), min(as_, 4), min(bs, 4), rs < as_, rs < bs, as_ < bs), nontrivial=rs > 0)
         events.append({"e": "Call", "op": op, "N": n, "p": p % (2 * n), "a": a, "b": b, "rs": rs, "res": res, "frame": frame,
                        "_what": "%s[%s] N=%d sizes=(%d,%d,%d) strides=(%d,%d,%d) p=%d" % (op, mk, n, rs, as_, bs, rsl, asl, bsl, p)})
+    # directed: add / sub whose two sources are one pointer read with two different strides, every module kind, equal and unequal sizes
+    if part == 0:
+        for op in ("add", "sub"):
+            for mk in ("fft64", "fft64-generic", "ntt120"):
+                for (as_, bs, rs) in ((2, 2, 2), (3, 3, 4), (3, 2, 3), (1, 1, 1)):
+                    n = rng.choice([4, 8, 16])
+                    asl, bsl, rsl = n + rng.choice([0, 3]), 2 * n + rng.choice([0, 1]), n + rng.choice([0, 5])
+                    A = Buf(8 * (max((as_ - 1) * asl, (bs - 1) * bsl) + n), fill=0x11)
+                    A.i64[:] = np.random.default_rng(rec.seed + n + as_).integers(-(1 << 20), 1 << 20, len(A.i64), dtype=np.int64)
+                    a = [[int(x) for x in A.i64[i * asl:i * asl + n]] for i in range(as_)]
+                    b = [[int(x) for x in A.i64[i * bsl:i * bsl + n]] for i in range(bs)]
+                    R = Buf(8 * ((rs - 1) * rsl + n), fill=0x6B)
+                    a0 = A.snapshot()
+                    label = "%s[%s] N=%d sizes=(%d,%d,%d) strides=(%d,%d,%d), both sources one pointer" % (op, mk, n, rs, as_, bs, rsl, asl, bsl)
+                    if not rec.progress(label):
+                        continue
+                    vecops.call_op(L, mods.get(n, mk), op, 0, R, rs, rsl, A, as_, asl, A, bs, bsl)
+                    frame = R.canaries_ok() and A.canaries_ok() and bool((A.u8 == a0).all())
+                    for i in range(rs - 1):
+                        frame = frame and bool((R.u8[8 * (i * rsl + n):8 * (i + 1) * rsl] == 0x6B).all())
+                    rec.case(("B-same-pointer", op, mk, as_, bs, rs))
+                    events.append({"e": "Call", "op": op, "N": n, "p": 0, "a": a, "b": b, "rs": rs,
+                                   "res": [[int(x) for x in R.i64[i * rsl:i * rsl + n]] for i in range(rs)], "frame": frame, "_what": label})
     rec.data["events"] = events
 
 
@@ -170,9 +193,8 @@ def drive_huge_strides(rec, quick):
     touched = []
     for (stride, limbs) in [((1 << 31), 3), ((1 << 32) + 16, 2), ((1 << 29) + 8, 3), ((1 << 31) + 1, 2)]:
         for op in ("copy", "negate", "add", "sub", "rotate", "automorphism", "zero"):
-            for mk in (("fft64", "fft64-generic", "ntt120") if not quick else (rng.choice(["fft64", "fft64-generic", "ntt120"]),)):
+            for mk, who in [(mk_, w_) for mk_ in ("fft64", "fft64-generic", "ntt120") for w_ in (("all", rng.choice(["r", "a", "b"])) if quick else ("r", "a", "b", "all"))]:
                 # which operand gets the huge stride: the result, the first or the second operand, or all of them
-                who = rng.choice(["r", "a", "b", "all"])
                 rsl = stride if who in ("r", "all") else n + 33          # (the small strides leave room for the 16-cell margins of every limb)
                 asl = stride if who in ("a", "all") else n + 35
                 bsl = stride if who in ("b", "all") else n + 32
